@@ -275,6 +275,9 @@ def readonly_scenarios(tier="quick"):
         tools.append(ro(["-t", "compdb"], "compdb"))
         tools.append(ro(["-t", "deps"]))
         tools.append(ro(["-t", "missingdeps"]))
+        # a dry run of the tools that do write: -n is -n
+        tools.append(ro(["-n", "-t", "restat"]))
+        tools.append(ro(["-n", "-t", "recompact"]))
         for t in tools:
             t["no_expand"] = True
         files = {"s2": "s2-v0\n"} if name == "generator_phony_alias" else {}
